@@ -114,13 +114,15 @@ impl Universe {
         let n = rng.range(0, 3);
         for _ in 0..n {
             match rng.below(7) {
-                0 => { let x = rng.pick(&self.origins).clone(); if !o.contains(&x) { o.push(x) } }
+                0 => { if !self.origins.is_empty() { let x = rng.pick(&self.origins).clone(); if !o.contains(&x) { o.push(x) } } }
                 1 => { if !o.is_empty() { let i = rng.below(o.len() as u64) as usize; o.remove(i); } }
                 2 => { if !self.keys.is_empty() { let x = rng.pick(&self.keys).clone(); if !k.contains(&x) { k.push(x) } } }
                 3 => { if !k.is_empty() { let i = rng.below(k.len() as u64) as usize; k.remove(i); } }
                 4 => {
-                    let c = *rng.pick(&self.customers);
-                    if !a.iter().any(|x| x[0] == json!(c)) { a.push(json!([c, self.provs(rng)])) }
+                    if !self.customers.is_empty() {
+                        let c = *rng.pick(&self.customers);
+                        if !a.iter().any(|x| x[0] == json!(c)) { a.push(json!([c, self.provs(rng)])) }
+                    }
                 }
                 5 => { if !a.is_empty() { let i = rng.below(a.len() as u64) as usize; a.remove(i); } }
                 _ => { if !a.is_empty() { let i = rng.below(a.len() as u64) as usize; a[i][1] = json!(self.provs(rng)); } }
